@@ -65,6 +65,9 @@ type Case struct {
 	EmptyGroupPath int `json:"empty_group_path,omitempty"`
 	// Wrapper: a HandlerWrapper (the identity) is configured on the router.
 	Wrapper bool `json:"handler_wrapper,omitempty"`
+	// AutoHeadGet: the route is declared with Get while AutoHead is on (GET and
+	// HEAD requests then run the same chain) instead of with Any.
+	AutoHeadGet bool `json:"autohead_get,omitempty"`
 }
 
 func (c Case) groupPath(d int) string {
@@ -347,7 +350,13 @@ func real(c Case) (res result) {
 			for k := 0; k < c.SiblingsBefore; k++ {
 				sibling(k)
 			}
-			f.Any("/r", rhs...)
+			if c.AutoHeadGet {
+				f.AutoHead(true)
+				f.Get("/r", rhs...)
+				f.AutoHead(false)
+			} else {
+				f.Any("/r", rhs...)
+			}
 			for k := 0; k < c.SiblingsAfter; k++ {
 				sibling(100 + k)
 			}
@@ -639,6 +648,7 @@ func genCase(t *rapid.T) Case {
 	c.SiblingsAfter = rapid.IntRange(0, 2).Draw(t, "sibafter")
 	c.ReaderFrom = rapid.Bool().Draw(t, "readerfrom")
 	c.Wrapper = rapid.IntRange(0, 3).Draw(t, "wrapper") == 0
+	c.AutoHeadGet = rapid.IntRange(0, 3).Draw(t, "autoheadget") == 0
 	if len(c.Groups) > 0 && rapid.IntRange(0, 3).Draw(t, "emptygroup") == 0 {
 		c.EmptyGroupPath = rapid.IntRange(1, 1<<len(c.Groups)-1).Draw(t, "emptymask")
 	}
